@@ -265,4 +265,5 @@ VARIANTS = [
     V("personalize-skips-cleanup", PM, "        self._terminate_algo(model, state)\n", "        if self.algo_parameters.get(\"progress_bar\", True):\n            self._terminate_algo(model, state)\n", "C13.R3"),
     V("algo-writes-settings", "src/leaspy/algo/algo_with_samplers.py", "        self.current_iteration: int = 0\n", "        self.current_iteration: int = 0\n        settings.parameters[\"n_burn_in_iter\"] = 0\n", "C13.R4"),
     V("silent-clone-renamed", FITF, "        model_state = state.clone()\n", "        model_state = state.clone(disable_auto_fork=False)\n", None),
+    V("silent-rename-model-state", "src/leaspy/algo/fit/mcmc_saem.py", "model_state", "cleaned", None, count=6),
 ]
